@@ -184,6 +184,23 @@ func (s *Svc) Echo(ctx context.Context, tok string, pad string) (string, error) 
 	return Reply(tok), nil
 }
 
+// Mirror returns a value that depends on every byte of its (possibly large) argument: the reply for tok,
+// the length of pad and pad itself, reversed in 7-byte blocks.
+func (s *Svc) Mirror(ctx context.Context, tok string, pad string) (string, error) {
+	r, g := s.enter(ctx, "Mirror", tok)
+	defer s.exit(ctx, r)
+	wait(ctx, g)
+	return MirrorOf(tok, pad), nil
+}
+
+func MirrorOf(tok, pad string) string {
+	b := []byte(pad)
+	for i := 0; i+7 <= len(b); i += 7 {
+		b[i], b[i+6] = b[i+6], b[i]
+	}
+	return fmt.Sprintf("%s:%d:%s", Reply(tok), len(pad), b)
+}
+
 // HoldHard ignores ctx while held (used where the handler must outlive the connection).
 func (s *Svc) HoldHard(ctx context.Context, tok string, pad string) (string, error) {
 	r, g := s.enter(ctx, "HoldHard", tok)
@@ -608,6 +625,7 @@ type Client struct {
 	NoCtxR          func(tok string) (string, error) `retry:"true" rpc_method:"S.NoCtx"`
 	HoldHard        func(ctx context.Context, tok string, pad string) (string, error)
 	Big             func(ctx context.Context, tok string, n int) (string, error)
+	Mirror          func(ctx context.Context, tok string, pad string) (string, error)
 	BigR            func(ctx context.Context, tok string, n int) (string, error) `retry:"true" rpc_method:"S.Big"`
 	Fail            func(ctx context.Context, tok string) (string, error)
 	Void            func(ctx context.Context, tok string)
